@@ -72,6 +72,8 @@ def impl_only_runs(ctx, progs, texts, what, timeout_ms=10000):
             continue
         done = len(r.get("matches_list") or [])
         n += done
+        if r.get("api_diff"):
+            ctx.violation("%s: (*Vore).Run of libvore.Compile's program differs from the pipeline's result" % what, {"source": p, "difference": str(r["api_diff"])[:500]})
         if "panic" in r or r.get("hang") or r.get("oom") or r.get("fatal"):
             t = texts[done] if done < len(texts) else None
             ctx.violation("%s: Run %s on a byte string that is not well-formed text" % (what, "panics" if "panic" in r else "does not return"),
